@@ -34,7 +34,7 @@ def run_xtool(src, inp, files, scratch, max_cycles, extra=(), timeout=60):
             os.unlink(p)
     cmd = [build.exe('xtool'), 'run', sp, '--in', ip, '--max-cycles', str(max_cycles), '--ref-steps', str(max_cycles)] + list(extra)
     try:
-        r = subprocess.run(cmd, stdout=subprocess.PIPE, stderr=subprocess.PIPE, env=driver.san_env(), cwd=scratch, timeout=timeout)
+        r = subprocess.run(cmd, stdout=subprocess.PIPE, stderr=subprocess.PIPE, env=driver.san_env(), cwd=scratch, timeout=timeout * driver.TIMEOUT_SCALE)
     except subprocess.TimeoutExpired:
         return 'timeout', None, ''
     if r.returncode != 0:
